@@ -32,8 +32,13 @@ def shape_list(rng, tier):
                 fts = [(rng.randrange(len(FT)), '' if x == '-' else 'I') for x in ign]
                 out.append((False, [(kind, fts)]))
             for t in range(n):
-                fts = [(rng.randrange(len(FT)), 'T' if i == t else rng.choice(['', 'I'])) for i in range(n)]
-                out.append((False, [(kind, fts)]))
+                for tf in ('T', 'B'):       # B = `#[debug(transparent, ignore)]` on one field: still the transparent field
+                    fts = [(rng.randrange(len(FT)), tf if i == t else rng.choice(['', 'I'])) for i in range(n)]
+                    out.append((False, [(kind, fts)]))
+        # more than one transparent field: rejected
+        for a, b in itertools.product('TB', repeat=2):
+            out.append((False, [(kind, [(0, a), (1, ''), (2, b)])]))
+            out.append((True, [('unit', []), (kind, [(0, a), (2, b)])]))
     out.append((False, [('unit', [])]))
     # enums
     for _ in range(30 if tier == 'quick' else 300):
@@ -44,7 +49,7 @@ def shape_list(rng, tier):
             fts = [(rng.randrange(len(FT)), rng.choice(['', '', 'I'])) for _ in range(n)]
             if n and rng.random() < 0.25:
                 i = rng.randrange(n)
-                fts[i] = (fts[i][0], 'T')
+                fts[i] = (fts[i][0], rng.choice(['T', 'T', 'B']))
             vs.append((kind, fts))
         out.append((True, vs))
     return out
@@ -54,7 +59,7 @@ def fields_s(kind, fts, raw):
     names = ['a', 'r#type' if raw else 'b', 'c', 'd']
     fs = []
     for i, (fi, flag) in enumerate(fts):
-        attrs = [sx.a_debug(sx.m_list(sx.gargs(transparent=(flag == 'T'), ignore=(flag == 'I'))))] if flag else []
+        attrs = [sx.a_debug(sx.m_list(sx.gargs(transparent=(flag in ('T', 'B')), ignore=(flag in ('I', 'B')))))] if flag else []
         fs.append(sx.field(FT[fi][0], name=names[i] if kind == 'named' else None, attrs=attrs))
     return sx.named(fs) if kind == 'named' else (sx.unnamed(fs) if kind == 'tuple' else sx.UNIT)
 
@@ -73,7 +78,7 @@ def rust_fields(kind, fts, raw, keep):
 class C10(Prop):
     pid = 'C10'
     tag = 'body of the Debug impl'
-    rule = ('structs: named/tuple with 0-3 fields x ALL subsets of ignored fields x each transparent choice, unit; enums: random '
+    rule = ('structs: named/tuple with 0-3 fields x ALL subsets of ignored fields x each transparent choice (also written `transparent, ignore` on one field), two transparent fields (rejected), unit; enums: random '
             'mixes of variant kinds with ignored / transparent fields; raw identifiers; generic parameter; field types i32, f64, '
             '&str, Option<u8>, a nested struct, T; both entry points; compiled next to a twin carrying #[derive(Debug)] with the '
             'ignored fields deleted (or the transparent field alone) and compared under 11 format specs (alternate, width, '
@@ -107,10 +112,12 @@ class C10(Prop):
 
     def oracle(self, tier, rng, suspicious):
         results = self.l1_results or R.run_cases(self.cases(tier, rng))
-        mods = []
+        mods, rejects = [], []
         for r in results:
             m = r.meta
-            if any(sum(1 for _, f in fts if f == 'T') > 1 for _, fts in m['vs']):
+            if any(sum(1 for _, f in fts if f in ('T', 'B')) > 1 for _, fts in m['vs']):
+                rejects.append(l2.Module(r.cid, ('#[::derive_ex::derive_ex(%s)]\n' % r.attr if r.mode == 'A'
+                                                 else '#[derive(::derive_ex::Ex)]\n') + r.item + '\npub fn run() {}', r))
                 continue
             head = ('#[::derive_ex::derive_ex(%s)]\n' % r.attr) if r.mode == 'A' else '#[derive(::derive_ex::Ex)]\n'
             ty = 'E' if m['enum'] else 'X'
@@ -141,7 +148,7 @@ class C10(Prop):
                 path = ('E::V%d' % vi) if m['enum'] else 'X'
                 _, real = rust_fields(kind, fts, m['raw'], lambda f: True)
                 _, tw = rust_fields(kind, fts, m['raw'], lambda f: f != 'I')
-                tf = [FT[fi][2] for fi, f in fts if f == 'T']
+                tf = [FT[fi][2] for fi, f in fts if f in ('T', 'B')]
                 for si, spec in enumerate(SPECS):
                     if tf:
                         ref = 'format!("%s", %s)' % (spec, tf[0])
@@ -183,9 +190,18 @@ class C10(Prop):
                 validated += 1
                 if len(samples) < 2 and r.meta['nontrivial']:
                     samples.append(dict(input=r.input_text()[:300], specs=len(SPECS)))
+        l2.compile_batch('c10rej', rejects, prelude=PRELUDE, check_only=True)
+        for mo in rejects:
+            msgs = [d['message'] for d in mo.diags if d['level'] == 'error']
+            if mo.compiled or not any('only one field can be set' in x for x in msgs):
+                failures.append(dict(**{'class': 'several-transparent-fields-accepted', 'mode': 'compile'}, input=mo.meta.input_text(),
+                                     expected='compile error: only one field can be set `#[debug(transparent)]`', observed=msgs[:3]))
+            else:
+                validated += 1
+        l2.cleanup('c10rej')
         for name, _ in batches:
             l2.cleanup(name)
-        return dict(evaluations=len(mods), validated=validated, programs=len(mods), observations=n_obs,
+        return dict(evaluations=len(mods) + len(rejects), validated=validated, programs=len(mods) + len(rejects), observations=n_obs,
                     failures=failures, samples=samples)
 
 
